@@ -16,7 +16,7 @@ TraceObs == [err |-> err, zb |-> zb, zt |-> zt, h |-> h, mesh |-> mesh,
              tname |-> [b \in 1..NBk |-> NameOf(b, tname[b])],
              comp |-> [b \in 1..NBk |-> [i \in 1..NC(b) |->
                          [h |-> comp[b][i].h, zb |-> comp[b][i].zb, zt |-> comp[b][i].zt, lin |-> comp[b][i].lin,
-                          mass |-> RDiv(MassOf(b, i), RInt(A.hs[b]))]]]]
+                          mass |-> ObsMass(b, i)]]]]
 ObsMatch == \/ TraceObs' = Ev.post
             \/ /\ TraceObs' # Ev.post
                /\ PrintT(ToJson([mismatch |-> Traces[tid].id, at |-> l, expected |-> TraceObs']))
